@@ -68,7 +68,25 @@ func Normalize(p *Prog) (map[string][]byte, []string, error) {
 		ns.src[k] = v
 	}
 	cur := p
-	// named conditions first: `c := X && Y; if c {...}` is `if X && Y {...}`
+	// tagless switches first: `switch { case a && b: X; default: Y }` is `if a && b { X } else { Y }` (go/ssa
+	// evaluates case expressions as values: a short-circuit case reaches its branch as a phi)
+	for i := 0; i < 3; i++ {
+		changed, err := ns.switchRound(cur)
+		if err != nil {
+			return nil, nil, err
+		}
+		if !changed {
+			break
+		}
+		cfg := p.Cfg
+		cfg.Overlay = ns.src
+		np, err := Load(cfg)
+		if err != nil {
+			return nil, nil, fmt.Errorf("normalised tree does not load: %v", err)
+		}
+		cur = np
+	}
+	// named conditions: `c := X && Y; if c {...}` is `if X && Y {...}`
 	if changed, err := ns.condVarRound(cur); err != nil {
 		return nil, nil, err
 	} else if changed {
@@ -1395,4 +1413,149 @@ func knownNonNil(info *types.Info, body *ast.BlockStmt, ret *ast.ReturnStmt, res
 	}
 	visit(body, false)
 	return found
+}
+
+// switchRound rewrites innermost tagless switch statements that contain a short-circuit case expression (and no
+// unlabeled break / fallthrough in their bodies) into the equivalent if / else-if chain.
+func (ns *normState) switchRound(p *Prog) (bool, error) {
+	changed := false
+	for _, pkg := range p.Pkgs {
+		rel := strings.TrimPrefix(strings.TrimPrefix(pkg.PkgPath, modPath), "/")
+		if rel == "testutils" {
+			continue
+		}
+		for _, f := range pkg.Syntax {
+			fname := p.Fset.Position(f.Pos()).Filename
+			if strings.HasSuffix(fname, "_test.go") {
+				continue
+			}
+			src, err := ns.fileSrc(fname)
+			if err != nil {
+				return false, err
+			}
+			base := p.Fset.File(f.Pos()).Base()
+			off := func(pos token.Pos) int { return int(pos) - base }
+			var cands []*ast.SwitchStmt
+			ast.Inspect(f, func(n ast.Node) bool {
+				sw, ok := n.(*ast.SwitchStmt)
+				if !ok || sw.Tag != nil || sw.Init != nil {
+					return true
+				}
+				short, clean := false, true
+				for _, c := range sw.Body.List {
+					cc := c.(*ast.CaseClause)
+					for _, e := range cc.List {
+						ast.Inspect(e, func(m ast.Node) bool {
+							if be, ok := m.(*ast.BinaryExpr); ok && (be.Op == token.LAND || be.Op == token.LOR) {
+								short = true
+							}
+							return true
+						})
+					}
+					if len(cc.List) > 1 {
+						short = true
+					}
+					for _, st := range cc.Body {
+						ast.Inspect(st, func(m ast.Node) bool {
+							switch x := m.(type) {
+							case *ast.ForStmt, *ast.RangeStmt, *ast.SelectStmt, *ast.FuncLit:
+								return false
+							case *ast.SwitchStmt, *ast.TypeSwitchStmt:
+								_ = x
+								return false
+							case *ast.BranchStmt:
+								if (x.Tok == token.BREAK && x.Label == nil) || x.Tok == token.FALLTHROUGH {
+									clean = false
+								}
+							}
+							return clean
+						})
+					}
+				}
+				if short && clean {
+					cands = append(cands, sw)
+				}
+				return true
+			})
+			var edits []textEdit
+			for _, sw := range cands {
+				inner := false
+				for _, o := range cands {
+					if o != sw && o.Pos() > sw.Pos() && o.End() <= sw.End() {
+						inner = true // contains another candidate: that one first (next round)
+					}
+				}
+				if inner {
+					continue
+				}
+				var b strings.Builder
+				var def *ast.CaseClause
+				first := true
+				clauses := sw.Body.List
+				for i, c := range clauses {
+					cc := c.(*ast.CaseClause)
+					end := sw.Body.Rbrace
+					if i+1 < len(clauses) {
+						end = clauses[i+1].Pos()
+					}
+					body := string(src[off(cc.Colon)+1 : off(end)])
+					if cc.List == nil {
+						def = cc
+						continue
+					}
+					var conds []string
+					for _, e := range cc.List {
+						conds = append(conds, "("+string(src[off(e.Pos()):off(e.End())])+")")
+					}
+					if first {
+						b.WriteString("if ")
+						first = false
+					} else {
+						b.WriteString(" else if ")
+					}
+					b.WriteString(strings.Join(conds, " || "))
+					b.WriteString(" {")
+					b.WriteString(body)
+					b.WriteString("}")
+				}
+				if def != nil {
+					idx := 0
+					for i, c := range clauses {
+						if c == ast.Stmt(def) {
+							idx = i
+						}
+					}
+					end := sw.Body.Rbrace
+					if idx+1 < len(clauses) {
+						end = clauses[idx+1].Pos()
+					}
+					body := string(src[off(def.Colon)+1 : off(end)])
+					if first {
+						b.WriteString("{" + body + "}")
+					} else {
+						b.WriteString(" else {" + body + "}")
+					}
+				}
+				if first && def == nil {
+					continue
+				}
+				edits = append(edits, textEdit{off(sw.Pos()), off(sw.End()), b.String()})
+				ns.inlined[fmt.Sprintf("tagless switch (%s:%d)", rel, p.Fset.Position(sw.Pos()).Line)] = true
+			}
+			if len(edits) == 0 {
+				continue
+			}
+			sort.Slice(edits, func(i, j int) bool { return edits[i].start > edits[j].start })
+			out := append([]byte(nil), src...)
+			for _, e := range edits {
+				if e.start < 0 || e.end > len(out) || e.start > e.end {
+					continue
+				}
+				out = append(out[:e.start], append([]byte(e.text), out[e.end:]...)...)
+			}
+			ns.src[fname] = out
+			changed = true
+		}
+	}
+	return changed, nil
 }
